@@ -272,21 +272,10 @@ func (v *Value) GetMember(member Value) (*Cell, error) {
 		}
 
 		if index >= len(arr) {
-			// TODO sparse arrays
-			// don't fill up to enormous numbers, just bail
-			if index > 1024*1024 {
-				return nil, fmt.Errorf("index too large to auto-fill array")
-			}
-
-			// fill the array with empty cells up to the index
-			var lastCell *Cell
-			for i := len(arr); i <= index; i++ {
-				lastCell = NewCell(NewValue(nil))
-				arr = append(arr, lastCell)
-			}
-			v.Array = arr
-
-			// make the last cell a spec object
+			// past the end: a spec object that is not part of the array. Reading
+			// it gives null and leaves the array alone; assigning to it makes
+			// SetMember fill the array up to the index
+			lastCell := NewCell(NewValue(nil))
 			lastCell.Value.ParentObj = v
 			fIndex := float64(index)
 			lastCell.Value.Num = &fIndex
@@ -329,6 +318,24 @@ func (v *Value) SetMember(member Value, cell *Cell) (*Cell, error) {
 	case ValueArray:
 		if member.Tag != ValueNum {
 			return nil, fmt.Errorf("array indices must be numbers")
+		}
+
+		index := int(*member.Num)
+		if index >= len(v.Array) {
+			// TODO sparse arrays
+			// don't fill up to enormous numbers, just bail
+			if index > 1024*1024 {
+				return nil, fmt.Errorf("index too large to auto-fill array")
+			}
+
+			// fill the array with empty cells up to the index, the new cell
+			// becomes the last item
+			arr := v.Array
+			for i := len(arr); i < index; i++ {
+				arr = append(arr, NewCell(NewValue(nil)))
+			}
+			v.Array = append(arr, cell)
+			return cell, nil
 		}
 
 		item, err := v.GetMember(member)
